@@ -78,6 +78,7 @@ type HarnessReport struct {
 	SolverStats   SolverStats
 	PathBudgetHit bool
 	InfeasiblePaths int
+	ModelQueries    int
 	Merged        int
 	Bounds        map[string]int
 	Assumes       map[string]int
@@ -108,6 +109,7 @@ type Engine struct {
 	lenient             bool
 	curWhere            string
 	fmtDeps             map[string][]*Term
+	hints               map[*Term][2]uint64
 }
 
 var repoRoot string
@@ -133,7 +135,7 @@ func NewEngine(ld *Loaded, cfg Config) (*Engine, error) {
 	e := &Engine{tm: tm, solver: s, prog: ld.prog, ld: ld, cfg: cfg, arrCache: map[arrReadKey]*Term{},
 		fnInfos: map[*ssa.Function]*fnInfo{}, globals: map[*ssa.Global]*Object{}, violSeen: map[string]int{},
 		noMerge: map[*ssa.Function]bool{}, sentinel: map[string]*OpaqueV{}, panicsAreViolations: true,
-		globalOf: map[*Object]*ssa.Global{}, fmtDeps: map[string][]*Term{}}
+		globalOf: map[*Object]*ssa.Global{}, fmtDeps: map[string][]*Term{}, hints: map[*Term][2]uint64{}}
 	if e.cfg.Bounds == nil {
 		e.cfg.Bounds = map[string]int{}
 	}
@@ -241,6 +243,32 @@ func (e *Engine) where(instr ssa.Instruction) string {
 	return name + "@" + posString(e.prog.Fset, p)
 }
 
+// withFreshSolver asserts the path condition (plus extra) in a new solver process and, if it is
+// satisfiable, runs fn with the model available.  Model construction in the long-lived solver
+// is proportional to everything ever defined there; a fresh process only sees this path.
+func (e *Engine) withFreshSolver(pc *PC, extra *Term, fn func() error) (SatResult, error) {
+	fs, err := NewSolver(e.cfg.SolverName, e.tm, e.cfg.TimeoutMs, "")
+	if err != nil {
+		return Unknown, err
+	}
+	defer fs.Close()
+	for p := pc; p != nil; p = p.parent {
+		fs.Assert(p.t)
+	}
+	if extra != nil {
+		fs.Assert(extra)
+	}
+	r := fs.Check()
+	e.rep.ModelQueries++
+	if r != Sat {
+		return r, nil
+	}
+	saved := e.solver
+	e.solver = fs
+	defer func() { e.solver = saved }()
+	return r, fn()
+}
+
 // extractTape evaluates the tape in the current model (solver must be in a sat state).
 func (e *Engine) extractTape(st *State) ([]TapeValue, error) {
 	entries := st.tape.slice()
@@ -321,9 +349,14 @@ func (e *Engine) obligation(st *State, cond *Term, kind, id string, instr ssa.In
 	case Sat:
 		key := kind + ":" + id
 		if e.violSeen[key] < e.cfg.MaxViolPerID {
-			tape, err := e.extractTape(st)
-			if err != nil {
-				e.note("model extraction failed: " + err.Error())
+			var tape []TapeValue
+			_, err := e.withFreshSolver(st.pc, neg, func() error {
+				var err error
+				tape, err = e.extractTape(st)
+				return err
+			})
+			if err != nil || tape == nil {
+				e.note(fmt.Sprintf("model extraction failed: %v", err))
 			} else {
 				e.violSeen[key]++
 				e.rep.Violations = append(e.rep.Violations, Violation{Harness: e.rep.Name, ID: id, Kind: kind, Where: e.where(instr), Tape: tape})
@@ -618,61 +651,127 @@ func (e *Engine) finishPath(st *State) {
 		n = 1
 	}
 	if len(e.rep.Samples) < e.bound("samples", 12) && (e.rep.Paths-1)%n == 0 {
-		e.sync(st.pc)
-		if e.solver.Check() == Sat {
-			tape, err := e.extractTape(st)
+		_, err := e.withFreshSolver(st.pc, nil, func() error {
+			tape, obs, err := e.extractSample(st)
 			if err == nil {
-				obs, err2 := e.extractObs(st)
-				if err2 == nil {
-					e.rep.Samples = append(e.rep.Samples, PathSample{Tape: tape, Obs: obs})
-				}
+				e.rep.Samples = append(e.rep.Samples, PathSample{Tape: tape, Obs: obs})
 			}
+			return err
+		})
+		if err != nil {
+			e.note("sample extraction failed: " + err.Error())
 		}
 	}
 }
 
-func (e *Engine) extractObs(st *State) ([]ObsValue, error) {
-	entries := st.obs.slice()
-	out := make([]ObsValue, 0, len(entries))
-	for _, oe := range entries {
-		switch oe.Kind {
-		case "reach":
-			out = append(out, ObsValue{oe.Tag, "reach"})
-		case "int", "bool", "assert":
-			v, err := e.solver.GetValues([]*Term{oe.Term})
-			if err != nil {
-				return nil, err
-			}
-			if oe.Kind == "int" {
-				out = append(out, ObsValue{oe.Tag, fmt.Sprintf("%d", int64(v[0]))})
-			} else {
-				out = append(out, ObsValue{oe.Tag, fmt.Sprintf("%v", v[0] == 1)})
-			}
-		case "bytes":
-			lv, err := e.solver.GetValues([]*Term{oe.Bytes.len})
-			if err != nil {
-				return nil, err
-			}
-			n := int(lv[0])
-			if n > 1<<16 {
-				return nil, fmt.Errorf("observed length too large")
-			}
-			ts := make([]*Term, n)
-			for i := range ts {
-				ts[i] = e.arrRead(oe.Bytes.arr, e.tm.Add(oe.Bytes.off, e.c64(uint64(i))))
-			}
-			bv, err := e.solver.GetValues(ts)
-			if err != nil {
-				return nil, err
-			}
-			b := make([]byte, n)
-			for i := range b {
-				b[i] = byte(bv[i])
-			}
-			out = append(out, ObsValue{oe.Tag, fmt.Sprintf("%x", b)})
+// extractSample evaluates tape and observations of a finished path in the current model with
+// two get-value round trips (scalars and lengths first, then the bytes).
+func (e *Engine) extractSample(st *State) ([]TapeValue, []ObsValue, error) {
+	tapeE := st.tape.slice()
+	obsE := st.obs.slice()
+	var q1 []*Term
+	for _, te := range tapeE {
+		q1 = append(q1, te.Term)
+		if te.Cap != nil {
+			q1 = append(q1, te.Cap)
 		}
 	}
-	return out, nil
+	nTape := len(q1)
+	for _, oe := range obsE {
+		switch oe.Kind {
+		case "int", "bool", "assert":
+			q1 = append(q1, oe.Term)
+		case "bytes":
+			q1 = append(q1, oe.Bytes.len)
+		}
+	}
+	v1, err := e.solver.GetValues(q1)
+	if err != nil {
+		return nil, nil, err
+	}
+	var q2 []*Term
+	tape := make([]TapeValue, len(tapeE))
+	vi := 0
+	type span struct{ from, n int }
+	tapeSpans := make([]span, len(tapeE))
+	for i, te := range tapeE {
+		v := v1[vi]
+		vi++
+		tape[i].Kind = te.Kind
+		tape[i].U = v
+		if te.Kind == "bytes" || te.Kind == "str" {
+			n := int(v)
+			if n > te.Max {
+				return nil, nil, fmt.Errorf("model length %d exceeds bound %d", n, te.Max)
+			}
+			total := n
+			if te.Cap != nil {
+				c := int(v1[vi])
+				vi++
+				tape[i].Cap = c
+				if c > total {
+					total = c
+				}
+			}
+			tapeSpans[i] = span{len(q2), total}
+			for j := 0; j < total; j++ {
+				q2 = append(q2, e.tm.Select(te.Arr, e.c64(uint64(j))))
+			}
+		}
+	}
+	_ = nTape
+	obs := make([]ObsValue, 0, len(obsE))
+	obsSpans := make([]span, len(obsE))
+	for i, oe := range obsE {
+		switch oe.Kind {
+		case "reach":
+			obs = append(obs, ObsValue{oe.Tag, "reach"})
+		case "int":
+			obs = append(obs, ObsValue{oe.Tag, fmt.Sprintf("%d", int64(v1[vi]))})
+			vi++
+		case "bool", "assert":
+			obs = append(obs, ObsValue{oe.Tag, fmt.Sprintf("%v", v1[vi] == 1)})
+			vi++
+		case "bytes":
+			n := int(v1[vi])
+			vi++
+			if n > 1<<16 {
+				return nil, nil, fmt.Errorf("observed length too large")
+			}
+			obsSpans[i] = span{len(q2), n}
+			for j := 0; j < n; j++ {
+				q2 = append(q2, e.arrRead(oe.Bytes.arr, e.tm.Add(oe.Bytes.off, e.c64(uint64(j)))))
+			}
+			obs = append(obs, ObsValue{oe.Tag, ""})
+		}
+	}
+	v2, err := e.solver.GetValues(q2)
+	if err != nil {
+		return nil, nil, err
+	}
+	for i, te := range tapeE {
+		if te.Kind == "bytes" || te.Kind == "str" {
+			sp := tapeSpans[i]
+			b := make([]byte, sp.n)
+			for j := range b {
+				b[j] = byte(v2[sp.from+j])
+			}
+			tape[i].Bytes = fmt.Sprintf("%x", b)
+		}
+	}
+	oi := 0
+	for i, oe := range obsE {
+		if oe.Kind == "bytes" {
+			sp := obsSpans[i]
+			b := make([]byte, sp.n)
+			for j := range b {
+				b[j] = byte(v2[sp.from+j])
+			}
+			obs[oi].Val = fmt.Sprintf("%x", b)
+		}
+		oi++
+	}
+	return tape, obs, nil
 }
 
 func sortedKeys(m map[string]int) []string {
